@@ -3153,7 +3153,7 @@ func clauseReclaimReallyRemoves(c *Ctx, id string) {
 		}
 	}
 	if f := c.mustFn("snapshot", "(*snapshotter).restoreRemoteSnapshot"); f != nil {
-		for _, lit := range withAnon(f) {
+		for _, lit := range c.withHelpers(f) {
 			mk := callsIn(lit, idIs("os.Mkdir", "os.MkdirAll"))
 			if len(mk) < 2 {
 				continue
